@@ -254,6 +254,7 @@ def run(run, tier):
     xsim.run_others(run, 'C05', EoN, sim, tier, per, total, 'initial_condition')
     from . import xc05; total.n += xc05.part(run, tier, 'C05', props, per) or 0
     from . import discx; discx.part(run, tier, 'C05', props, per)
+    from . import xsis05; total.n += xsis05.part(run, tier, 'C05', props, per) or 0
     if not props['ok']:
         run.violation('C05/proof', 'Props/C05.v no longer checks: %s' % props['log'][-400:], {'broken': 'coq/Props/C05.v', 'log': props['log']}, no_input=True)
     C.proof_coverage(run, props, total.n, min(len(total.distinct), total.nontrivial),
